@@ -349,6 +349,8 @@ CreateObsClauses(T, prev, ev, post) ==
                          ObsCreate(T.inst, prev.core, T.filt, prev.obs, ev.t, Rng(ev.fts)), post.obs)
         ELSE {})
   \cup If(post.core # prev.core, {C("C11:construct-changed-state")})
+  \cup If("configured" \in DOMAIN ev /\ ev.out = "ok" /\ ev.component_types # ev.configured,
+          {C("C11:composite-components-differ-from-configured")})
   \* a built-in observer constructed with its default arguments is subscribed (otherwise it silently never
   \* hears of a dispatch, and whatever the property under check says about it cannot hold)
   \cup If("subscribed" \in DOMAIN ev /\ ~ev.subscribed, {Tag(T.owner \o ":constructed-observer-not-subscribed", ev.t)})
